@@ -1,34 +1,127 @@
 //! C27: higher-priority subscriptions are served first.  Drives the real session/subscription
-//! machinery (see ../subs2.rs) with several subscriptions of different priorities, data pending
-//! on several of them and a scarce supply of publish requests.
+//! machinery (see ../subs2.rs) through HISTORIES on one `Subscriptions` instance: several
+//! subscriptions of different priorities, data pending on several of them, a scarce supply of
+//! publish requests, and — between the scheduling rounds — the operations that change who should
+//! be served first: ModifySubscription (the real service: `Subscriptions::get_mut` ->
+//! `Subscription::set_priority`), create / delete subscription, set publishing mode.
+//! The Coq side is coq/C27/Model.v (`hop`, `case`, `run`).
 #[path = "../util.rs"]
 mod util;
 #[path = "../subs2.rs"]
 mod subs2;
+use opcua::core::supported_message::SupportedMessage;
+use opcua::server::services::subscription::verif as svc;
+use opcua::types::service_types::ModifySubscriptionRequest;
+use opcua::types::RequestHeader;
 use subs2::*;
 use util::*;
 
 pub struct P;
 
-fn sub(prio: i64) -> Op { Op::CreateSub { prio, interval: 1000, kac: 3, life: 1000, enabled: true } }
-fn item(sub: i64, var: i64) -> Op { Op::CreateItem { sub, var, mode: 2, samp: -1, qsize: 4, discard_oldest: true } }
-fn tick(dt: i64) -> Op { Op::Tick { dt } }
-fn publ() -> Op { Op::Publish { dt: 0, hint: 0, acks: vec![] } }
-fn wr(v: i64, x: i64) -> Op { Op::Write { v, x } }
+#[derive(Clone, Debug)]
+pub enum HOp {
+    /// an operation of the shared set (coq: `HOp o`)
+    Base(Op),
+    /// ModifySubscription (coq: `HModifySub sub prio interval kac life`)
+    Modify { sub: i64, prio: i64, interval: i64, kac: i64, life: i64 },
+}
+pub struct HCase { pub nvars: i64, pub ops: Vec<HOp> }
+
+fn hop_term(h: &HOp) -> String {
+    let zz = |v: i64| z(v as i128);
+    match h {
+        HOp::Base(o) => format!("HOp ({})", op_term(o)),
+        HOp::Modify { sub, prio, interval, kac, life } =>
+            format!("HModifySub {} {} {} {} {}", zz(*sub), zz(*prio), zz(*interval), zz(*kac), zz(*life)),
+    }
+}
+fn hcase_term(c: &HCase) -> String { format!("(mk_hist {} {})", z(c.nvars as i128), coq_list(&c.ops, hop_term)) }
+
+fn u32c(v: i64) -> u32 { v.clamp(0, u32::MAX as i64) as u32 }
+
+/// the ModifySubscription service on the world's session; observation: status class, the revised
+/// values (publishing interval ms, lifetime count, keep-alive count) in the message slot
+fn modify(w: &mut World, sub: i64, prio: i64, interval: i64, kac: i64, life: i64, out: &mut Vec<i128>) {
+    let request = ModifySubscriptionRequest {
+        request_header: RequestHeader::dummy(),
+        subscription_id: u32c(sub),
+        requested_publishing_interval: interval as f64,
+        requested_lifetime_count: u32c(life),
+        requested_max_keep_alive_count: u32c(kac),
+        max_notifications_per_publish: 0,
+        priority: prio.clamp(0, 255) as u8,
+    };
+    let (status, slot) = match svc::modify_subscription(World::server_state_handle(), w.session_handle(), &request) {
+        SupportedMessage::ModifySubscriptionResponse(r) => {
+            let iv = r.revised_publishing_interval;
+            let iv = if iv.is_finite() && iv.fract() == 0.0 { iv as i128 } else { -1 };
+            (0, Some([iv, r.revised_lifetime_count as i128, r.revised_max_keep_alive_count as i128]))
+        }
+        SupportedMessage::ServiceFault(f) => (class(f.response_header.service_result), None),
+        _ => (98, None),
+    };
+    w.observe_external(status, slot, out);
+}
+
+/// Runs the whole history on one world; a panic in the real code ends the output with -2.
+fn exec_hist(c: &HCase) -> Vec<i128> {
+    let mut out = Vec::new();
+    let mut w = World::new(c.nvars);
+    for (k, h) in c.ops.iter().enumerate() {
+        let mut part = Vec::new();
+        let r = guarded(|| match h {
+            HOp::Base(o) => w.step_observed(k, o, &mut part),
+            HOp::Modify { sub, prio, interval, kac, life } => modify(&mut w, *sub, *prio, *interval, *kac, *life, &mut part),
+        });
+        match r {
+            Ok(()) => out.extend(part),
+            Err(_) => { out.push(-2); break; }
+        }
+    }
+    out
+}
+
+fn b(o: Op) -> HOp { HOp::Base(o) }
+fn sub(prio: i64) -> HOp { b(Op::CreateSub { prio, interval: 1000, kac: 3, life: 1000, enabled: true }) }
+fn item(sub: i64, var: i64) -> HOp { b(Op::CreateItem { sub, var, mode: 2, samp: -1, qsize: 4, discard_oldest: true }) }
+fn tick(dt: i64) -> HOp { b(Op::Tick { dt }) }
+fn publ() -> HOp { b(Op::Publish { dt: 0, hint: 0, acks: vec![] }) }
+fn wr(v: i64, x: i64) -> HOp { b(Op::Write { v, x }) }
+fn del(sub: i64) -> HOp { b(Op::DeleteSub { sub }) }
+fn setpub(sub: i64, enabled: bool) -> HOp { b(Op::SetPublishing { sub, enabled }) }
+/// ModifySubscription that keeps the timing parameters of `sub()` and changes the priority
+fn modp(sub: i64, prio: i64) -> HOp { HOp::Modify { sub, prio, interval: 1000, kac: 3, life: 1000 } }
 
 impl Property for P {
-    type Case = Case;
-    fn fixed(tier: &str) -> Vec<Case> {
+    type Case = HCase;
+    fn fixed(tier: &str) -> Vec<HCase> {
         let mut v = vec![
             // the design-round witness: priorities 1 and 200 both have data, one request queued:
             // before the fix the priority-1 subscription was answered
-            Case { nvars: 1, ops: vec![sub(1), sub(200), item(1, 0), item(2, 0), tick(0), tick(1000), publ(), wr(0, 5), tick(1000), tick(1000)] },
+            HCase { nvars: 1, ops: vec![sub(1), sub(200), item(1, 0), item(2, 0), tick(0), tick(1000), publ(), wr(0, 5), tick(1000), tick(1000)] },
             // two requests, three subscriptions with data
-            Case { nvars: 2, ops: vec![sub(5), sub(9), sub(7), item(1, 0), item(2, 1), item(3, 0), tick(0), tick(1000), wr(0, 1), wr(1, 2), tick(1000), publ(), publ(), tick(1000), publ(), publ(), publ(), tick(1000)] },
+            HCase { nvars: 2, ops: vec![sub(5), sub(9), sub(7), item(1, 0), item(2, 1), item(3, 0), tick(0), tick(1000), wr(0, 1), wr(1, 2), tick(1000), publ(), publ(), tick(1000), publ(), publ(), publ(), tick(1000)] },
             // requests arrive after the data: served from the Late state in priority order
-            Case { nvars: 1, ops: vec![sub(3), sub(4), item(1, 0), item(2, 0), tick(0), tick(1000), tick(1000), publ(), publ(), publ()] },
+            HCase { nvars: 1, ops: vec![sub(3), sub(4), item(1, 0), item(2, 0), tick(0), tick(1000), tick(1000), publ(), publ(), publ()] },
             // equal priorities: map order
-            Case { nvars: 1, ops: vec![sub(7), sub(7), item(1, 0), item(2, 0), tick(0), tick(1000), publ(), tick(1000)] },
+            HCase { nvars: 1, ops: vec![sub(7), sub(7), item(1, 0), item(2, 0), tick(0), tick(1000), publ(), tick(1000)] },
+            // priority raised between two rounds: A 10, B 200, C 100 all have data; the first
+            // request goes to B, then A becomes 250: the second request must go to A, the third to C
+            HCase { nvars: 1, ops: vec![sub(10), sub(200), sub(100), item(1, 0), item(2, 0), item(3, 0), tick(0), tick(1000), publ(), modp(1, 250), publ(), publ()] },
+            // priority lowered between two rounds: B 200 -> 5 after a round; then C, A, B
+            HCase { nvars: 1, ops: vec![sub(10), sub(200), sub(100), item(1, 0), item(2, 0), item(3, 0), tick(0), tick(1000), tick(1000), modp(2, 5), publ(), publ(), publ()] },
+            // changed to the priority of another subscription, then above it; new data every round
+            HCase { nvars: 1, ops: vec![sub(50), sub(60), item(1, 0), item(2, 0), tick(0), tick(1000), publ(), modp(1, 60), wr(0, 1), tick(1000), publ(), modp(1, 61), wr(0, 2), tick(1000), publ(), publ(), publ()] },
+            // a subscription created after several rounds with the highest priority; later the
+            // highest one is deleted
+            HCase { nvars: 1, ops: vec![sub(20), sub(30), item(1, 0), item(2, 0), tick(0), tick(1000), publ(), tick(1000), sub(90), item(3, 0), tick(0), wr(0, 3), tick(1000), tick(1000), publ(), del(3), wr(0, 4), tick(1000), publ(), publ()] },
+            // publishing disabled on the highest priority, re-enabled later
+            HCase { nvars: 1, ops: vec![sub(20), sub(30), item(1, 0), item(2, 0), tick(0), tick(1000), publ(), setpub(2, false), wr(0, 1), tick(1000), publ(), setpub(2, true), wr(0, 2), tick(1000), publ(), publ()] },
+            // ModifySubscription of an unknown and of a deleted subscription; revised values
+            // (keep-alive 0 -> default, lifetime below 3 x keep-alive, interval below the minimum)
+            HCase { nvars: 1, ops: vec![sub(20), sub(30), item(1, 0), item(2, 0), tick(0), modp(7, 99), del(2), modp(2, 250), HOp::Modify { sub: 1, prio: 3, interval: 10, kac: 0, life: 0 }, tick(100), publ(), wr(0, 1), tick(100), tick(100)] },
+            // two priority swaps back and forth with a round after each
+            HCase { nvars: 2, ops: vec![sub(1), sub(2), item(1, 0), item(2, 1), tick(0), tick(1000), publ(), modp(1, 3), wr(0, 1), wr(1, 1), tick(1000), publ(), modp(2, 4), wr(0, 2), wr(1, 2), tick(1000), publ(), modp(1, 0), wr(0, 3), wr(1, 3), tick(1000), publ(), publ(), publ(), publ()] },
         ];
         if tier == "thorough" {
             // every order of three distinct priorities, 0..3 requests before the data tick
@@ -37,55 +130,113 @@ impl Property for P {
                 let mut ops = vec![sub(p[0]), sub(p[1]), sub(p[2]), item(1, 0), item(2, 0), item(3, 0), tick(0)];
                 for _ in 0..nreq { ops.push(publ()); }
                 ops.push(tick(1000)); ops.push(wr(0, 9)); ops.push(tick(1000)); ops.push(publ()); ops.push(tick(1000));
-                v.push(Case { nvars: 1, ops });
+                v.push(HCase { nvars: 1, ops });
             } }
+            // every order of three priorities, a round, then each subscription moved to the top /
+            // to the bottom / onto another's priority, and one request per round afterwards
+            for p in prios.iter() { for who in 1..=3i64 { for &np in &[9i64, 0, 2] {
+                let mut ops = vec![sub(p[0] * 2), sub(p[1] * 2), sub(p[2] * 2), item(1, 0), item(2, 0), item(3, 0), tick(0), tick(1000), publ()];
+                ops.push(modp(who, np));
+                ops.push(wr(0, 7)); ops.push(tick(1000));
+                ops.push(publ()); ops.push(publ()); ops.push(publ());
+                v.push(HCase { nvars: 1, ops });
+            } } }
         }
         v
     }
-    fn gen(r: &mut Rng) -> Case {
-        let nsubs = 2 + r.below(4) as i64;
+    fn gen(r: &mut Rng) -> HCase {
+        // what the generator knows about the subscriptions it created (index = id - 1)
+        struct S { prio: i64, interval: i64, kac: i64, life: i64 }
         let nvars = 1 + r.below(3) as i64;
-        let mut ops = Vec::new();
-        // distinct priorities most of the time
-        let mut prios: Vec<i64> = Vec::new();
-        for _ in 0..nsubs {
-            let mut p = r.below(256) as i64;
-            if r.chance(5, 6) { while prios.contains(&p) { p = r.below(256) as i64; } }
-            prios.push(p);
-        }
+        let mut ops: Vec<HOp> = Vec::new();
+        let mut subs: Vec<S> = Vec::new();
         let intervals = [1000i64, 1000, 1000, 500, 2000];
-        for &p in &prios {
-            ops.push(Op::CreateSub { prio: p, interval: *r.pick(&intervals), kac: 1 + r.below(4) as i64, life: 30 + r.below(100) as i64, enabled: !r.chance(1, 12) });
+        fn fresh_prio(r: &mut Rng, subs: &[S]) -> i64 {
+            // distinct priorities most of the time
+            let mut p = r.below(256) as i64;
+            if r.chance(5, 6) { while subs.iter().any(|s| s.prio == p) { p = r.below(256) as i64; } }
+            p
         }
-        for s in 1..=nsubs {
+        fn add_items(r: &mut Rng, ops: &mut Vec<HOp>, s: i64, nvars: i64) {
             let n = if r.chance(1, 8) { 0 } else { 1 + r.below(2) };
             for _ in 0..n {
-                ops.push(Op::CreateItem { sub: s, var: r.below(nvars as u64) as i64, mode: if r.chance(1, 10) { r.below(2) as i64 } else { 2 },
-                    samp: *r.pick(&[-1i64, -1, -1, 100, 500, 1000]), qsize: 1 + r.below(4) as i64, discard_oldest: r.chance(1, 2) });
+                ops.push(b(Op::CreateItem { sub: s, var: r.below(nvars as u64) as i64, mode: if r.chance(1, 10) { r.below(2) as i64 } else { 2 },
+                    samp: *r.pick(&[-1i64, -1, -1, 100, 500, 1000]), qsize: 1 + r.below(4) as i64, discard_oldest: r.chance(1, 2) }));
             }
         }
+        let n0 = 2 + r.below(3) as usize;
+        for _ in 0..n0 {
+            let s = S { prio: fresh_prio(r, &subs), interval: *r.pick(&intervals), kac: 1 + r.below(4) as i64, life: 30 + r.below(100) as i64 };
+            ops.push(b(Op::CreateSub { prio: s.prio, interval: s.interval, kac: s.kac, life: s.life, enabled: !r.chance(1, 12) }));
+            subs.push(s);
+        }
+        for s in 1..=n0 as i64 { add_items(r, &mut ops, s, nvars); }
         ops.push(tick(0));
-        let n = 6 + r.below(18);
+        let n = 8 + r.below(22);
         let mut x = 1;
         for _ in 0..n {
-            match r.below(10) {
-                0..=2 => { ops.push(wr(r.below(nvars as u64) as i64, x)); x += 1; }
-                3..=5 => ops.push(tick(*r.pick(&[1000i64, 1000, 1000, 500, 100, 2000]))),
-                6..=8 => { let k = 1 + r.below(3); for _ in 0..k { ops.push(Op::Publish { dt: *r.pick(&[0i64, 0, 100]), hint: 0, acks: vec![] }); } }
-                _ => { if r.chance(1, 2) { ops.push(Op::DeleteSub { sub: 1 + r.below(nsubs as u64) as i64 }); } else { ops.push(wr(0, x)); x += 1; ops.push(tick(1000)); } }
+            match r.below(20) {
+                0..=3 => { ops.push(wr(r.below(nvars as u64) as i64, x)); x += 1; }
+                4..=7 => ops.push(tick(*r.pick(&[1000i64, 1000, 1000, 500, 100, 2000]))),
+                8..=10 => { let k = 1 + r.below(3); for _ in 0..k { ops.push(b(Op::Publish { dt: *r.pick(&[0i64, 0, 100]), hint: 0, acks: vec![] })); } }
+                11..=14 => {
+                    // ModifySubscription: mostly of an existing id, mostly changing the ranking
+                    let id = if r.chance(1, 15) { subs.len() as i64 + 1 } else { 1 + r.below(subs.len() as u64) as i64 };
+                    let others: Vec<i64> = subs.iter().enumerate().filter(|(k, _)| *k as i64 + 1 != id).map(|(_, s)| s.prio).collect();
+                    let hi = others.iter().copied().max().unwrap_or(100);
+                    let lo = others.iter().copied().min().unwrap_or(100);
+                    let prio = match r.below(10) {
+                        0..=3 => (hi + 1 + r.below(3) as i64).min(255),      // above everybody else
+                        4..=5 => (lo - 1 - r.below(3) as i64).max(0),        // below everybody else
+                        6..=7 => *r.pick(&others),                           // onto another's priority
+                        _ => r.below(256) as i64,
+                    };
+                    let (mut interval, mut kac, mut life) = match subs.get(id as usize - 1) { Some(s) => (s.interval, s.kac, s.life), None => (1000, 3, 100) };
+                    if r.chance(1, 4) {
+                        interval = *r.pick(&[1000i64, 500, 2000, 50, 100]);
+                        kac = *r.pick(&[0i64, 1, 2, 3, 5]);
+                        life = *r.pick(&[0i64, 5, 30, 100, 100000]);
+                    }
+                    ops.push(HOp::Modify { sub: id, prio, interval, kac, life });
+                    if let Some(s) = subs.get_mut(id as usize - 1) {
+                        // what the service revises them to (only used to re-send plausible values)
+                        s.prio = prio; s.interval = interval.max(100);
+                        s.kac = if kac == 0 { 10 } else { kac };
+                        s.life = life.max(3 * s.kac).min(90000);
+                    }
+                }
+                15 => {
+                    // a subscription created after rounds have run
+                    if subs.len() < 6 {
+                        let s = S { prio: fresh_prio(r, &subs), interval: *r.pick(&intervals), kac: 1 + r.below(4) as i64, life: 30 + r.below(100) as i64 };
+                        ops.push(b(Op::CreateSub { prio: s.prio, interval: s.interval, kac: s.kac, life: s.life, enabled: true }));
+                        subs.push(s);
+                        add_items(r, &mut ops, subs.len() as i64, nvars);
+                        ops.push(tick(0));
+                    } else { ops.push(tick(1000)); }
+                }
+                16 => ops.push(del(1 + r.below(subs.len() as u64) as i64)),
+                17 => ops.push(setpub(1 + r.below(subs.len() as u64) as i64, r.chance(1, 2))),
+                _ => {
+                    // new data for everybody, one interval, a single request
+                    for v in 0..nvars { ops.push(wr(v, x)); x += 1; }
+                    ops.push(tick(1000));
+                    ops.push(publ());
+                }
             }
         }
-        Case { nvars, ops }
+        HCase { nvars, ops }
     }
-    fn exec(c: &Case) -> Out {
-        let out = exec_case(c);
-        let nsubs = c.ops.iter().filter(|o| matches!(o, Op::CreateSub { .. })).count();
-        let nreq = c.ops.iter().filter(|o| matches!(o, Op::Publish { .. })).count();
-        let nresp = out.iter().filter(|&&v| v == 7).count();
-        let _ = nresp;
-        let tag = format!("subs{}-req{}{}", nsubs, if nreq == 0 { "0" } else if nreq < 4 { "1..3" } else { "4+" },
+    fn exec(c: &HCase) -> Out {
+        let out = exec_hist(c);
+        let nsubs = c.ops.iter().filter(|o| matches!(o, HOp::Base(Op::CreateSub { .. }))).count();
+        let nreq = c.ops.iter().filter(|o| matches!(o, HOp::Base(Op::Publish { .. }))).count();
+        let nmod = c.ops.iter().filter(|o| matches!(o, HOp::Modify { .. })).count();
+        let tag = format!("subs{}-mod{}-req{}{}", nsubs,
+            if nmod == 0 { "0" } else if nmod < 3 { "1..2" } else { "3+" },
+            if nreq == 0 { "0" } else if nreq < 4 { "1..3" } else { "4+" },
             if out.last() == Some(&-2) { "-panic" } else { "" });
-        Out { tag, term: case_term(c), out }
+        Out { tag, term: hcase_term(c), out }
     }
 }
 fn main() { run_main::<P>() }
